@@ -4,7 +4,7 @@
    roll-back of rejected objects).  Memory safety, signals, exceptions and hangs of the real binary are observed by
    the check (plain and ASan/UBSan sweeps), not proved. *)
 From Coq Require Import ZArith List Bool QArith String.
-From CV Require Import C10.GuardModel C10.GuardProofs.
+From CV Require Import C10.GuardModel C10.GuardProofs Gen.GenGuards.
 Import ListNotations.
 Local Open Scope string_scope.
 Local Open Scope Z_scope.
@@ -30,7 +30,8 @@ Theorem C10_accept_implies_safe_use :
   (forall rof c,
      all_ok (r_uses (bias_init rof c)) = true /\ forall sr, all_ok (bias_step_uses (r_state (bias_init rof c)) sr) = true) /\
   (forall rof c,
-     all_ok (r_uses (meta_init rof c)) = true /\ forall sr, all_ok (meta_step_uses (r_state (meta_init rof c)) sr) = true) /\
+     all_ok (r_uses (meta_init rof c)) = true /\
+     (r_err (meta_init rof c) = false -> forall sr, all_ok (meta_step_uses (r_state (meta_init rof c)) sr) = true)) /\
   (forall rof c,
      all_ok (r_uses (abf_init rof c)) = true /\ forall sr, all_ok (abf_step_uses (r_state (abf_init rof c)) sr) = true) /\
   (forall rof c,
@@ -45,25 +46,39 @@ Theorem C10_accept_implies_safe_use :
   (forall host c,
      all_ok (r_uses (histrestr_init host c)) = true /\
      (r_err (histrestr_init host c) = false ->
-      1 <= r_state (histrestr_init host c) <= int_max /\ r_state (histrestr_init host c) * 24 <= host)).
+      1 <= r_state (histrestr_init host c) <= int_max /\ r_state (histrestr_init host c) * 24 <= host)) /\
+  (* correlation function (calc_acf): the iterator skip and the writes through acf.begin() *)
+  (forall rof c, r_err (colvar_init rof c) = false ->
+     forall h, all_ok (corrfunc_uses (r_state (colvar_init rof c)) h) = true) /\
+  (* vector scripted function: size in [1, INT_MAX] and within what the host grants *)
+  (forall host t,
+     all_ok (r_uses (scripted_init host t)) = true /\
+     (r_err (scripted_init host t) = false ->
+      1 <= r_state (scripted_init host t) <= int_max /\ r_state (scripted_init host t) * 8 <= host)).
 Proof.
   exact (conj module_safe (conj colvar_safe (conj bias_safe (conj meta_safe (conj abf_safe (conj moving_safe
-        (conj coordnum_safe (conj opes_safe histrestr_safe)))))))).
+        (conj coordnum_safe (conj opes_safe (conj histrestr_safe (conj corrfunc_safe scripted_safe)))))))))).
 Qed.
 Print Assumptions C10_accept_implies_safe_use.
 
-(* The same statement is FALSE for the sizes taken from corrFuncLength / corrFuncStride / corrFuncOffset (table entries
-   without any validation in colvar::parse_analysis; recorded defects, replayed on the C++ by the check):
-   accepted configurations whose uses in calc_acf have a false precondition. *)
-Theorem C10_accept_implies_safe_use_refuted_corrfunc :
-  (exists c, r_err (colvar_init 0 c) = false /\
-             forall host, all_ok (corrfunc_uses host (r_state (colvar_init 0 c)) 0) = false) /\
-  (exists c, r_err (colvar_init 0 c) = false /\ all_ok (corrfunc_uses harness_bytes (r_state (colvar_init 0 c)) 0) = false) /\
-  (exists c, r_err (colvar_init 0 c) = false /\ all_ok (corrfunc_uses harness_bytes (r_state (colvar_init 0 c)) 0) = false /\
-             s_cflen (r_state (colvar_init 0 c)) = 2) /\
-  (exists c h, r_err (colvar_init 0 c) = false /\ all_ok (corrfunc_uses two64 (r_state (colvar_init 0 c)) h) = false).
-Proof. exact corrfunc_sizes_refuted. Qed.
-Print Assumptions C10_accept_implies_safe_use_refuted_corrfunc.
+(* corrFuncLength / corrFuncStride / corrFuncOffset (repaired; the statement was refuted before, see
+   C10_before_repair_refuted): an accepted correlation function has 0 <= length, offset < INT_MAX and a history
+   capacity stride * (length + offset + 1) <= INT_MAX, so no size or sum computed from them wraps. *)
+Theorem C10_corrfunc_sizes_bounded : forall rof c,
+  r_err (colvar_init rof c) = false -> s_corr (r_state (colvar_init rof c)) = true ->
+  let st := r_state (colvar_init rof c) in
+  0 <= s_cflen st < int_max /\ 0 <= s_cfoff st < int_max /\
+  s_cfstride st * (s_cflen st + s_cfoff st + 1) <= int_max.
+Proof. exact corrfunc_capacity. Qed.
+Print Assumptions C10_corrfunc_sizes_bounded.
+
+(* COMPLETENESS of the guard table with respect to the current source tree: every (file, keyword) whose get_keyval
+   destination the scanner finds used as a divisor, modulus, size, loop bound, index or integer cast
+   (coq/Gen/GenGuards.v, REGENERATED on every run) is either covered by a definition of GuardModel.v or listed as
+   exempt with a reason.  A new such keyword in the C++ makes this theorem fail. *)
+Theorem C10_guard_table_covers_source : forallb guard_known gen_guards = true.
+Proof. vm_compute. reflexivity. Qed.
+Print Assumptions C10_guard_table_covers_source.
 
 (* Grid sizes: whenever init_from_colvars/init_from_boundaries/setup accept (repaired code), every size is a positive
    int, the number of elements is the mathematical product (no wrap, <= INT_MAX, so it fits the int strides and
@@ -124,10 +139,19 @@ Theorem C10_before_repair_refuted :
   (* histogramRestraint: p.resize() argument for width 0, width -1, upperBoundary 1e300, 2^31-1 bins *)
   (histrestr_resize_arg_old 0 8 0 = two64 - two31 /\ histrestr_resize_arg_old 0 8 (-1 # 1) = two64 - 8 /\
    histrestr_resize_arg_old 0 ((10 ^ 300) # 1) 1 = two64 - two31 /\
-   histrestr_resize_arg_old 0 (2147483647 # 1) 1 = 2147483647).
+   histrestr_resize_arg_old 0 (2147483647 # 1) 1 = 2147483647) /\
+  (* correlation function: corrFuncLength -1 with offset 1 (nothing allocated, write through acf.begin()),
+     corrFuncOffset -1 (iterator advanced past the history) *)
+  (all_ok (corrfunc_uses (corr_state_old (two64 - 1) 1 1) 0) = false /\
+   all_ok (corrfunc_uses (corr_state_old 1000 1 (two64 - 1)) 999) = false) /\
+  (* metadynamics walker with newHillFrequency 0: replica_update_freq / new_hill_freq *)
+  (exists c, r_err (meta_init 0 c) = false /\ all_ok (meta_replica_div_old (r_state (meta_init 0 c))) = false) /\
+  (* multiple-walker OPES with a neighbor list and restart frequency 0: step % shared_freq *)
+  (exists c, r_err (opes_init 0 1 c) = false /\ all_ok (opes_shared_use_old (r_state (opes_init 0 1 c))) = false).
 Proof.
   exact (conj traj_label_old_refuted (conj (proj1 meta_old_refuted) (conj (proj2 meta_old_refuted)
-        (conj (proj1 setup_old_refuted) (conj (proj2 setup_old_refuted) histrestr_old_refuted))))).
+        (conj (proj1 setup_old_refuted) (conj (proj2 setup_old_refuted) (conj histrestr_old_refuted
+        (conj corrfunc_old_refuted (conj meta_replica_old_refuted opes_shared_old_refuted)))))))).
 Qed.
 Print Assumptions C10_before_repair_refuted.
 
@@ -135,13 +159,13 @@ Print Assumptions C10_before_repair_refuted.
 Example C10_example_accepted :
   r_err (colvar_init 3 (mkCvConf (Some (TokInt 2)) true (Some (TokInt 3)) (Some (TokInt 1)) false None None None 0 0 0 0 0)) = false /\
   r_err (moving_init 3 (mkMovConf (mkBiasConf None None) true (Some (TokInt 4)) (Some (TokInt 2)))) = false /\
-  r_err (opes_init 3 1 (mkOpesConf (mkBiasConf None None) (Some (TokInt 2)) true (Some (TokInt 4)) true (Some (TokInt 2)) None 0)) = false /\
+  r_err (opes_init 3 1 (mkOpesConf (mkBiasConf None None) (Some (TokInt 2)) true (Some (TokInt 4)) true (Some (TokInt 2)) None 0 false false None 0)) = false /\
   r_err (histrestr_init harness_bytes (mkHrConf (Some (TokInt 0)) (Some (TokInt 8)) (Some (TokInt 1)))) = false /\
   r_state (histrestr_init harness_bytes (mkHrConf (Some (TokInt 0)) (Some (TokInt 8)) (Some (TokInt 1)))) = 8 /\
   grid_init harness_bytes true [mkDim 0 4 (1 # 2); mkDim (-1 # 1) 1 (1 # 4)] 1 8 = (Accept, 64, [8; 1]) /\
   (* rejected by validation, not by a trap *)
   r_err (colvar_init 3 (mkCvConf None true None (Some (TokInt 0)) false None None None 0 0 0 0 0)) = true /\
-  r_err (meta_init 3 (mkMetaConf (mkBiasConf None (Some (TokInt 0))) None true None)) = true /\
+  r_err (meta_init 3 (mkMetaConf (mkBiasConf None (Some (TokInt 0))) None true None false None)) = true /\
   fst (fst (grid_init harness_bytes true [mkDim 0 (2147483647 # 1) 1] 1 8)) = Reject /\
   fst (fst (grid_init harness_bytes true [mkDim 0 4 0] 1 8)) = Reject.
 Proof. vm_compute. repeat split. Qed.
